@@ -11,6 +11,7 @@ CONSTANTS
   MaxRestarts = 1
   Kinds = {"waive", "stale", "equal"}
   Pols = {"leader"}
+  SrcSet = {"request"}
   Vias = {"api"}
   MaxHolds = 0
   MaxSnaps = 1
